@@ -114,6 +114,7 @@ func drain(en hmap.Enumeration, f func(interface{})) {
 func buildObjMap[K comparable, M objMap[K]](typ string, m M, p *hmapx.Pool[K], rank func(K) int, keys func() []int, setMax func(int)) *hmapx.Obj {
 	o := &hmapx.Obj{Type: typ, N: p.N(), Ops: map[string]func(Op) Ev{},
 		Hdr: Ev{"set": false, "none": []int{}, "rej": false, "ek": 0}}
+	o.Raw = m
 	o.Ops["Put"] = func(op Op) Ev { return Ev{"ret": pObj(m.Put(p.Key(op.K), op.V))} }
 	o.Ops["PutFirst"] = func(op Op) Ev { return Ev{"ret": pObj(m.PutFirst(p.Key(op.K), op.V))} }
 	o.Ops["PutLast"] = func(op Op) Ev { return Ev{"ret": pObj(m.PutLast(p.Key(op.K), op.V))} }
@@ -197,6 +198,7 @@ func buildNumMap[K comparable, V num, M numMap[K, V]](typ string, m M, p *hmapx.
 	rank := p.Rank
 	o := &hmapx.Obj{Type: typ, N: p.N(), Ops: map[string]func(Op) Ev{},
 		Hdr: Ev{"set": false, "none": []int{0}, "rej": false, "ek": 0}}
+	o.Raw = m
 	o.Ops["Put"] = func(op Op) Ev { return Ev{"ret": pNum(m.Put(p.Key(op.K), V(op.V)))} }
 	o.Ops["PutFirst"] = func(op Op) Ev { return Ev{"ret": pNum(m.PutFirst(p.Key(op.K), V(op.V)))} }
 	o.Ops["PutLast"] = func(op Op) Ev { return Ev{"ret": pNum(m.PutLast(p.Key(op.K), V(op.V)))} }
@@ -339,6 +341,7 @@ func buildStrNumMap[V num, M strNumMap[V]](typ string, m M, p *hmapx.Pool[string
 	rank := p.Rank
 	o := &hmapx.Obj{Type: typ, N: p.N(), Ops: map[string]func(Op) Ev{},
 		Hdr: Ev{"set": false, "none": []int{0}, "rej": true, "ek": p.Rank("")}}
+	o.Raw = m
 	o.Ops["Put"] = func(op Op) Ev { return Ev{"ret": pNum(m.Put(p.Key(op.K), V(op.V)))} }
 	o.Ops["PutFirst"] = func(op Op) Ev { return Ev{"ret": pNum(m.PutFirst(p.Key(op.K), V(op.V)))} }
 	o.Ops["PutLast"] = func(op Op) Ev { return Ev{"ret": pNum(m.PutLast(p.Key(op.K), V(op.V)))} }
@@ -424,6 +427,7 @@ type linkedSet[K any] interface {
 // pk projects such an answer: the key's rank as <<r>>, nil / untyped 0 as <<>>.
 func buildSet[K comparable, M linkedSet[K]](typ string, m M, p *hmapx.Pool[K], rank func(K) int, pk func(interface{}) []int, keys func() []int, keyArray func() []int, setMax func(int), hdr Ev) *hmapx.Obj {
 	o := &hmapx.Obj{Type: typ, N: p.N(), Ops: map[string]func(Op) Ev{}, Hdr: hdr}
+	o.Raw = m
 	o.Ops["Put"] = func(op Op) Ev { return Ev{"ret": pk(m.Put(p.Key(op.K)))} }
 	o.Ops["PutFirst"] = func(op Op) Ev { return Ev{"ret": pk(m.PutFirst(p.Key(op.K)))} }
 	o.Ops["PutLast"] = func(op Op) Ev { return Ev{"ret": pk(m.PutLast(p.Key(op.K)))} }
